@@ -9,6 +9,7 @@ import (
 	"path/filepath"
 	"regexp"
 	"sort"
+	"strconv"
 	"strings"
 
 	"golang.org/x/tools/go/ssa"
@@ -87,6 +88,8 @@ func operatorDocs(p *core.Program) map[string]string {
 func checkC11(p *core.Program, r *core.Report) {
 	r.Rule("R1", "four-way operator table: for each of the 13 operators the grammar token's literal, the operator text in the node's String() format, the documented symbol of the operators function its Evaluate calls, and the token accessor under which the visitor builds the node all agree")
 	r.Rule("R2", "printers are complete and ordered: each node's String() prints every Expression field exactly once, in declaration order, via its own String(); Visit walks the same fields; VisitParentheses builds an explicit Parentheses node whose String() emits both brackets")
+	r.Rule("R7", "a path suffix is removed as a suffix: in the packages that rewrite templates (flows/definition/migrations, excellent/refactor, excellent) no strings.Trim/TrimLeft/TrimRight is given a constant cutset of several distinct non-blank characters — that is a prefix or suffix written as a character set (`TrimRight(path, \"[*]\")` also eats the `]` of `cases[*]`... `[0]`), and the template at that path is then not rewritten")
+	c11R7(p, r)
 	r.Rule("R3", "literals round-trip by construction: TextLiteral.String is strconv.Quote of the full native value, VisitTextLiteral uses strconv.Unquote, NumberLiteral.String derives from the decimal's String")
 	r.Rule("R4", "refactor plumbing: refactor.Template copies BODY tokens unchanged and scans with unescapeBody=false; wrapExpression is the inverse of what the scanner strips; the original text is kept when the transformer reports no change; ContextRefRename's changed flag is monotone and the rename is guarded by EqualFold on a *ContextReference")
 	r.Rule("R5", "identifier text is printed as it was read: the text fields of a node (ContextReference.Name, DotLookup.Lookup, AnonFunction.Args) reach the printed string only through formatting (concatenation, Sprintf, Join), never through a call that can alter them — except a listed normalisation that every consumer of the field is insensitive to")
@@ -182,11 +185,19 @@ func checkC11(p *core.Program, r *core.Report) {
 		// Visit covers the same expression fields
 		if visitFn != nil && len(ni.exprFlds) > 0 {
 			visited := map[string]bool{}
-			core.EachInstr(visitFn, false, func(_ *ssa.Function, in ssa.Instruction) {
-				if fa, ok := in.(*ssa.FieldAddr); ok {
-					visited[core.FieldAddrVar(fa).Name()] = true
+			// a field is descended into when Visit is invoked on its value (or on the elements of it), not when it is
+			// merely read or handed to the callback itself
+			for _, cs := range core.Calls(visitFn, false) {
+				c := cs.Common()
+				if !c.IsInvoke() || c.Method.Name() != "Visit" {
+					continue
 				}
-			})
+				for w := range core.BackSlice(c.Value, nil) {
+					if fa, ok := w.(*ssa.FieldAddr); ok {
+						visited[core.FieldAddrVar(fa).Name()] = true
+					}
+				}
+			}
 			missing := []string{}
 			for _, f := range ni.exprFlds {
 				if !visited[f] {
@@ -806,4 +817,42 @@ func c11LowerCompare(fn *ssa.Function) bool {
 		}
 	})
 	return ok
+}
+
+// ---------------------------------------------------------------------------------------------- R7
+
+func c11R7(p *core.Program, r *core.Report) {
+	n := 0
+	ord := map[string]int{}
+	for _, fn := range p.ModuleFunctions() {
+		rel := core.RelPkg(core.FuncPkgPath(fn))
+		if rel != "flows/definition/migrations" && rel != "excellent/refactor" && rel != "excellent" {
+			continue
+		}
+		for _, cs := range core.Calls(fn, false) {
+			o := core.CalleeObj(cs.Common())
+			if o == nil {
+				continue
+			}
+			switch core.ObjName(o) {
+			case "strings.Trim", "strings.TrimLeft", "strings.TrimRight":
+			default:
+				continue
+			}
+			n++
+			cut, ok := core.ConstString(cs.Common().Args[1])
+			if !ok {
+				continue
+			}
+			distinct := map[rune]bool{}
+			for _, c := range cut {
+				if c != ' ' && c != '\t' && c != '\n' && c != '\r' {
+					distinct[c] = true
+				}
+			}
+			ord[core.FuncName(fn)]++
+			r.Check(len(distinct) < 2, "R7", fmt.Sprintf("%s/%s#%d", core.FuncName(fn), o.Name(), ord[core.FuncName(fn)]), p.Pos(cs.Pos()), "cutset "+strconv.Quote(cut), "strings."+o.Name()+" with the cutset "+strconv.Quote(cut)+" removes any run of those characters, not that text: a path ending in another `]` or `*` loses it too and no longer addresses the template")
+		}
+	}
+	r.Count("trim_cutset_calls", n)
 }
